@@ -217,7 +217,7 @@ def run_differential(prog, script, fail: Callable[[str, Optional[str]], None], c
                         return {"ok": False}
                 # (3) registers created in this segment
                 for name, h in drv.regs.items():
-                    if drv.created_in_segment.get(name) == si:
+                    if drv.created_in_segment.get(name) == si or (str(h.reg) in drv.seg_regs.get(si, set()) and name not in nested_regs and str(h.reg).startswith("R")):
                         cval = ex._get_register(app, h.reg)
                         frozen_regs[name] = snap["regs"].get(name)
                         if cval != snap["regs"].get(name):
